@@ -105,14 +105,15 @@ def check(prop, tier, only):
         for f in cf.as_completed(futs):
             exes[futs[f]] = f.result()  # BuildError propagates: ./check turns it into a VIOLATION (mode 1 must compile)
     tolerate = [t for t in KNOWN_TAGS if vlib.match_known(prop, f"{H}|{t}")]
-    budget = 100 if tier == "quick" else 1100
+    # no wall-clock limit decides anything: the harness bounds every child by CPU time / blocked-state detection and itself by
+    # a CPU-time budget; the limit given to run_jobs only ends a run that is stuck for hours
     argv_jobs = []
     for j in jobs:
-        argv = [exes[j["cfg"]]] + shlex.split(j["args"]) + ["--tier", tier, "--time_s", str(budget)]
+        argv = [exes[j["cfg"]]] + shlex.split(j["args"]) + ["--tier", tier]
         if tolerate and "--conc" in j["args"]:
             argv += ["--tolerate", ",".join(tolerate)]
         argv_jobs.append((j["name"], argv))
-    results = vlib.run_jobs(argv_jobs, timeout=budget + 300)
+    results = vlib.run_jobs(argv_jobs, timeout=6 * 3600)
 
     states = trans = traces = 0
     per, samples, errors, known = [], [], [], []
@@ -120,6 +121,7 @@ def check(prop, tier, only):
     exhaustive = True
     shapes = {}
     counters = {"conc": {}, "seq-rwd": {}, "seq-tm1": {}}
+    timeouts = {"timeout_candidates": 0, "timeouts_not_reproduced": 0}
     for j, (label, rc, js, txt) in zip(jobs, results):
         if js is None:
             errors.append(f"{label}: harness produced no result (rc={rc}): {txt[-400:]}")
@@ -131,6 +133,8 @@ def check(prop, tier, only):
         trans += e.get("transitions", 0)
         traces += e.get("traces_validated_against_impl", 0)
         exhaustive = exhaustive and bool(js.get("exhaustive", False))
+        for k in timeouts:
+            timeouts[k] += e.get(k, 0)
         conc = e.get("part") == "conc"
         ck = "conc" if conc else "seq-" + j["cfg"]
         for k, v in e.get("counters", {}).items():
@@ -222,6 +226,8 @@ def check(prop, tier, only):
         "preemption_bound_completed": bounds,
         "per_shape": shapes,
         "event_counters": counters,
+        "timeout_candidates": timeouts["timeout_candidates"],
+        "timeouts_not_reproduced": timeouts["timeouts_not_reproduced"],
         "per_configuration": per,
         "harness_errors": errors[:20],
         "known_findings_hit": sorted(set(known)),
